@@ -23,6 +23,8 @@ for d in sorted(glob.glob(os.path.join(HERE, "seeded", "*"))):
     m["demo_exit_on_unchanged_tree"] = r["demo_unchanged_rc"]
     json.dump(m, open(os.path.join(d, "meta.json"), "w"), indent=1)
     own = m["breaks_property"] in m["checks_reporting_it"]
+    if m.get("own_check_expected_exit") == 2:
+        own = "no verdict" if m["breaks_property"] in m["checks_with_analysis_error"] else False
     rows.append((os.path.basename(d), m["breaks_property"], own, m))
     print(os.path.basename(d), "own check fires:", own, sorted(m["checks_reporting_it"]))
 L = ["# Independently written breaking changes (seeded/) and the checks that report them", "",
@@ -32,6 +34,6 @@ L = ["# Independently written breaking changes (seeded/) and the checks that rep
      "| seed | breaks | needs to manifest | own check | rules of the own check | other checks reporting it | first-run history |", "|---|---|---|---|---|---|---|"]
 for name, pid, own, m in rows:
     oth = ", ".join(p for p in sorted(m["checks_reporting_it"]) if p != pid)
-    L.append("| %s | %s | %s | %s | %s | %s | %s |" % (name, pid, m["needs_to_manifest"], "fires" if own else "**silent**",
+    L.append("| %s | %s | %s | %s | %s | %s | %s |" % (name, pid, m["needs_to_manifest"], ("fires" if own is True else "no verdict (exit 2, stated limitation)" if own == "no verdict" else "**silent**"),
              ", ".join(m["checks_reporting_it"].get(pid, [])), oth, m.get("history", "")))
 open(os.path.join(HERE, "SEEDED.md"), "w").write("\n".join(L) + "\n")
